@@ -768,6 +768,9 @@ pub fn case_strategy() -> BoxedStrategy<Case> {
 
 impl Prop for C06 {
     type Case = Case;
+    fn max_shrink_iters(&self) -> u32 {
+        150
+    }
     fn name(&self) -> &'static str {
         "chunk-plans"
     }
